@@ -40,6 +40,9 @@ struct FamObs {
     len: usize,
     allocated: usize,
     pos: usize,
+    /// chunks linked after the call / requests the call made to the base allocator
+    chunks: usize,
+    base_calls: usize,
 }
 
 fn family_weight(p: &Profile) -> u64 {
@@ -74,18 +77,21 @@ fn fam_callbacks(ep: Fam, elem: FElem, len: usize) -> usize {
     }
 }
 
-fn gen_family_plan(ctx: &mut Ctx, sc: &dyn ScopeOps) -> FamPlan {
+/// `forced`: the zero-sized probe chooses entry point and element type itself
+fn gen_family_plan(ctx: &mut Ctx, sc: &dyn ScopeOps, forced: Option<(Fam, FElem)>) -> FamPlan {
     let mut ep = *ctx.rng.pick(&Fam::ALL);
     let rem = remaining_of(sc);
     let raw = gen_size(ctx, rem);
-    let huge = raw > 1 << 20;
+    let huge = raw > 1 << 20 && forced.is_none();
     if huge {
         // a request no allocator can satisfy: only entry points that need no source of that size
         ep = *ctx.rng.pick(&[Fam::UninitSlice, Fam::SliceFill, Fam::SliceFillWith, Fam::IterExact, Fam::Iter, Fam::IterMut, Fam::IterMutRev]);
     }
-    let elems: Vec<FElem> = ep.elems().iter().copied().filter(|e| !(huge && *e == FElem::Zst)).collect();
+    let elems: Vec<FElem> = ep.elems().iter().copied().filter(|e| !(huge && e.layout().size() == 0)).collect();
     let mut elem = *ctx.rng.pick(&elems);
-    if !huge && ctx.rng.chance(1, 3) {
+    if let Some(f) = forced {
+        (ep, elem) = f;
+    } else if !huge && ctx.rng.chance(1, 3) {
         // the combinations that are also instantiated for the statically dispatched entries (`fam_lite`, `fam_ref`)
         (ep, elem) = *ctx.rng.pick(&[
             (Fam::Alloc, FElem::U64),
@@ -102,6 +108,8 @@ fn gen_family_plan(ctx: &mut Ctx, sc: &dyn ScopeOps) -> FamPlan {
         1
     } else if ep.is_text() {
         raw
+    } else if forced.is_some() {
+        (ctx.rng.below(9) as usize).max((ep == Fam::SliceFill) as usize)
     } else if es == 0 {
         raw.min(300)
     } else if ep == Fam::SliceFill {
@@ -233,6 +241,7 @@ fn run_family_plan(ctx: &mut Ctx, sc: &mut dyn ScopeOps, p: &FamPlan, entry: u8,
     let q = FamReq { ep: p.ep, elem: p.elem, len: if p.ep.is_text() { p.src.len() } else { p.len }, src: &p.src, panicking, entry, keep: p.keep, owned: p.owned, huge: p.huge };
     debug_assert!(fam_static_has(&q));
     fam_begin(&p.src, p.len, rev, p.fuse);
+    let base_calls0 = BASE.with(|b| b.borrow().alloc_calls);
     // what the hook observed / logged while the call was in progress
     let mut early: Option<(u64, usize)> = None; // block (id, address) logged at the first callback
     let mut prepared: Option<Result<(usize, usize), ()>> = None;
@@ -277,7 +286,7 @@ fn run_family_plan(ctx: &mut Ctx, sc: &mut dyn ScopeOps, p: &FamPlan, entry: u8,
         };
         catch_unwind(AssertUnwindSafe(|| sc.x_family(&q, &mut hook)))
     };
-    let mut obs = FamObs { class: "ok", ptr: 0, len: 0, allocated: 0, pos: 0 };
+    let mut obs = FamObs { class: "ok", ptr: 0, len: 0, allocated: 0, pos: 0, chunks: 0, base_calls: 0 };
     match r {
         Ok(Ok(ok)) => {
             fam_drop_oracles(ctx, &what, "returned Ok");
@@ -299,6 +308,25 @@ fn run_family_plan(ctx: &mut Ctx, sc: &mut dyn ScopeOps, p: &FamPlan, entry: u8,
             match lay {
                 None => {
                     ctx.br("fam: no allocation (zero-sized type / empty collection)");
+                    // every entry point of the family except `alloc_uninit_slice(_for)` returns a dangling box for a
+                    // zero-sized type / an empty collection without touching the arena
+                    let d = sc.x_dump();
+                    let calls = BASE.with(|b| b.borrow().alloc_calls) - base_calls0;
+                    ctx.oracle_checks += 1;
+                    if calls != 0 || d.typed != before.typed || d.cur != before.cur || cur_pos(&d, ctx.up) != cur_pos(&before, ctx.up) {
+                        ctx.oracle(
+                            "C17",
+                            format!(
+                                "FAMILY `{what}` needs no memory (its twins and the other entry points do not touch the arena for this request) but made {calls} request(s) to the base allocator, chunks {} -> {}, position {:#x} -> {:#x}, allocated {} -> {}",
+                                before.fwd.len(),
+                                d.fwd.len(),
+                                cur_pos(&before, ctx.up),
+                                cur_pos(&d, ctx.up),
+                                before.typed.allocated,
+                                d.typed.allocated
+                            ),
+                        );
+                    }
                 }
                 Some(l) if p.ep.is_mut() => {
                     let expected = fam_expected(p, l);
@@ -423,6 +451,8 @@ fn run_family_plan(ctx: &mut Ctx, sc: &mut dyn ScopeOps, p: &FamPlan, entry: u8,
     let d = sc.x_dump();
     obs.allocated = d.typed.allocated;
     obs.pos = cur_pos(&d, ctx.up);
+    obs.chunks = d.fwd.len();
+    obs.base_calls = (BASE.with(|b| b.borrow().alloc_calls) - base_calls0) as usize;
     obs
 }
 
@@ -463,15 +493,65 @@ fn fam_variants(ctx: &Ctx, p: &FamPlan) -> Vec<(u8, bool)> {
     v
 }
 
+/// entry points that accept a zero-sized element type
+const FAM_ZST_EPS: [Fam; 15] = [
+    Fam::Alloc,
+    Fam::AllocWith,
+    Fam::AllocDefault,
+    Fam::AllocUninit,
+    Fam::SliceCopy,
+    Fam::SliceClone,
+    Fam::SliceFill,
+    Fam::SliceFillWith,
+    Fam::SliceMove,
+    Fam::UninitSlice,
+    Fam::UninitSliceFor,
+    Fam::IterExact,
+    Fam::Iter,
+    Fam::IterMut,
+    Fam::IterMutRev,
+];
+
 fn op_family(ctx: &mut Ctx, sc: &mut dyn ScopeOps) {
-    let plan = gen_family_plan(ctx, &*sc);
+    // ---- zero-sized probe: a zero-sized element type (align 8 / align 1 / drop-counting) through two entry points
+    // from one state.  Whether a zero-sized request reaches the allocator is a property of the entry point
+    // (`alloc_uninit_slice(_for)` do, everything else short-circuits): a twin that differs pads the position to
+    // `align_of::<T>()` (visible when the position is not a multiple of it) or creates the first chunk.
+    let probe = ctx.rng.chance(1, 4);
+    let plan = if probe {
+        let ep = *ctx.rng.pick(&FAM_ZST_EPS);
+        let elem = *ctx.rng.pick(&[FElem::Z8, FElem::Z8, FElem::Unit, FElem::Zst]);
+        let elem = if ep.elems().contains(&elem) { elem } else { FElem::Z8 };
+        ctx.count("fam:(zero-sized probe)");
+        let a = elem.layout().align();
+        let d = sc.x_dump();
+        if let Some(i) = d.cur {
+            if a > sc.x_min_align() && d.fwd[i].pos % a == 0 && d.fwd[i].remaining >= 64 && !sc.x_is_claimed() {
+                // make the position odd with respect to the alignment of the zero-sized type
+                let l = Layout::from_size_align(1, 1).unwrap();
+                let text = "allocate 1 1 0 p";
+                match sc.x_allocate(l, false, Via::Plain, 0) {
+                    Ok((ptr, len)) => {
+                        let id = ctx.add_block(ptr, 1, 1, Vec::new(), None);
+                        log_op(ctx, sc, text, &format!("ok {id} {ptr} {len}"));
+                    }
+                    Err(()) => {
+                        log_op(ctx, sc, text, "err");
+                    }
+                }
+            }
+        }
+        gen_family_plan(ctx, &*sc, Some((ep, elem)))
+    } else {
+        gen_family_plan(ctx, &*sc, None)
+    };
     let vars = fam_variants(ctx, &plan);
     // prefer the statically dispatched entries when the combination is instantiated for them
     let statics: Vec<(u8, bool)> = vars.iter().copied().filter(|v| v.0 != 3).collect();
     let pick = |ctx: &mut Ctx| if !statics.is_empty() && ctx.rng.chance(1, 2) { *ctx.rng.pick(&statics) } else { *ctx.rng.pick(&vars) };
     let v1 = pick(ctx);
     // ---- C17: the same request through a second entry point from the same state
-    let twin = !ctx.fail_injected && !plan.huge && vars.len() >= 2 && !sc.x_is_claimed() && ctx.rng.chance(1, 4);
+    let twin = !ctx.fail_injected && !plan.huge && vars.len() >= 2 && !sc.x_is_claimed() && (probe || ctx.rng.chance(1, 4));
     if !twin {
         run_family_plan(ctx, sc, &plan, v1.0, v1.1);
         return;
